@@ -13,7 +13,8 @@ ID = "C07"
 LEVEL = "model_checking"
 META = dict(
     technique="exhaustive enumeration of control-command/tick sequences with several tick increments on the real Engine with a per-tick clock-delta oracle",
-    text="After Start and a warm-up that puts the method inside a Block / Watch scope / failing line, every sequence over "
+    text="After Start and a warm-up that puts the method inside a Block / Watch scope / failing line (also: in the second run after "
+         "a run that ended while Paused or was restarted while on Hold), every sequence over "
          "{Pause, Unpause, Hold, Unhold, Stop, Start, Restart, tick(0.1), tick(0.25), tick(0)} of the given depth is executed; "
          "Process Time and Run Time must start at 0, never decrease, and advance by exactly the tick increment only while "
          "Running / while a run is active; Block Time and Scope Time must not advance over ticks that begin and end Paused "
@@ -30,6 +31,11 @@ SETUPS = [
     ("Watch: X > 1\n    Wait: 100s\nWait: 100s", [("input", "In1", 2.0), ("user", "Start"), ("tick", 6, 0.1)]),
     ("Block: B\n    Mark: a\n    Bogus", [("user", "Start"), ("tick", 5, 0.1)]),
     ("Block: B\n    Hold: 0.3s\n    Pause: 0.3s\n    Wait: 100s", [("user", "Start"), ("tick", 4, 0.1)]),
+    # second run: the first run ended while Paused / was restarted while on Hold
+    ("Block: B\n    Wait: 100s", [("user", "Start"), ("tick", 5, 0.1), ("user", "Pause"), ("tick", 1, 0.1), ("user", "Stop"),
+                                   ("tick", 3, 0.1), ("user", "Start"), ("tick", 5, 0.1)]),
+    ("Block: B\n    Wait: 100s", [("user", "Start"), ("tick", 5, 0.1), ("user", "Hold"), ("tick", 1, 0.1), ("user", "Restart"),
+                                   ("tick", 8, 0.1)]),
 ]
 EPS = 1e-9
 STILL = ("Paused", "Holding")
